@@ -60,16 +60,26 @@ def _digest(out):
 
 
 def body_sync(a0, a1, a2, b0, b1, b2):
-    kind, tok = ctx.PART
+    part = ctx.PART
+    kind, tok = part[0], part[1]
+    with_cfg = len(part) > 2  # the collection keeps its metadata in the versioned .xandikos file, and a property
+    #                           is changed between the two states: the token moves, the file is never listed
     n = ctx.b.n
     S_i = _store.pre_state([a0, a1, a2], n)
     S_j = _store.pre_state([b0, b1, b2], n)
     if not (SP.invariant(S_i) and SP.invariant(S_j)):
         return (True, "pre-invalid")
     Wm.reset()
-    mstore.install_state(kind, _store.PATH, S_i)
+    mstore.install_state(kind, _store.PATH, S_i, with_config=(b"[DEFAULT]\ntype = calendar\n\n" if with_cfg else None))
     token_i = mstore.open_store(kind, _store.PATH).get_ctag()
     _move(kind, S_i, S_j)
+    cfg_bytes = None
+    if with_cfg:
+        mstore.open_store(kind, _store.PATH).set_displayname("renamed")
+        head = mstore.head_commits(_store.PATH)
+        cfg_bytes = mstore.tree_members(_store.PATH, head[0][1]).get(".xandikos")
+        if cfg_bytes is None:
+            return (False, "config-not-committed")
     store = mstore.open_store(kind, _store.PATH)
     col = Wb.Collection(None, "/col", store)
     if tok == 0:
@@ -168,7 +178,12 @@ def body_sync(a0, a1, a2, b0, b1, b2):
             return (False, cls)  # unchanged member listed
         replica[nm] = et
     want = {nm: '"' + mstore.expected_etag(kind, b) + '"' for nm, b in S_j.items()}
-    ok = replica == want and new_token == _store.expected_ctag(S_j)
+    full = dict(S_j)
+    if cfg_bytes is not None:
+        full[".xandikos"] = cfg_bytes
+    ok = replica == want and new_token == _store.expected_ctag(full)
+    if with_cfg:
+        ok = ok and new_token != token_i  # the property change moved the token although no member changed
     return (ok, cls + (":nochange" if not changed and not removed else ":changes"))
 
 
@@ -263,7 +278,8 @@ HARNESSES = [
     Harness("sync", h_sync, body_sync,
             classes=[("valid:changes", ("bare", 0)), ("valid:nochange", ("tree", 0)), ("empty:changes", ("bare", 1)),
                      ("foreign", ("tree", 2)), ("nontree", ("bare", 4))],
-            parts={"quick": [(k, t) for k in ("bare", "tree") for t in range(5)] + [("bare", 5), ("bare", 7), ("tree", 6), ("tree", 7)],
+            parts={"quick": [(k, t) for k in ("bare", "tree") for t in range(5)] + [("bare", 5), ("bare", 7), ("tree", 6), ("tree", 7)] +
+                            [("bare", 0, "cfg"), ("tree", 0, "cfg"), ("bare", 1, "cfg"), ("tree", 1, "cfg")],
                    "thorough": [(k, t) for k in ("bare", "tree") for t in range(8)]}, bounds=_B, budget={"quick": 75, "thorough": 600},
             describe="REPORT sync-collection from S_i's token at state S_j: replica law, nothing outside the "
                      "difference, token = tree id of S_j; empty token = full membership; foreign / non-tree token = error",
